@@ -31,7 +31,21 @@ func main() {
 	describe := flag.Bool("describe", false, "print the property table as JSON")
 	dumpFuncs := flag.Bool("dumpfuncs", false, "print the functions of the module (the reference list for helper expansion, known_funcs.txt)")
 	dumpRefs := flag.Bool("dumprefs", false, "print the declarations of the module (the reference list for rename normalisation, known_refs.txt)")
+	dumpLoc := flag.Bool("dumplocals", false, "print the variables each function of the module declares (the reference list for the normalisation of renamed locals, known_locals.txt)")
 	flag.Parse()
+	if *dumpLoc {
+		os.Setenv("FRUGALVET_NO_EXPAND", "1")
+		c, err := Load(*repo, *arch)
+		if err != nil {
+			fmt.Fprintln(os.Stderr, err)
+			os.Exit(2)
+		}
+		fmt.Println("# variables declared by each function of the reference tree, in source order: package, function, name/type pairs")
+		for _, l := range dumpLocals(c.Pkgs) {
+			fmt.Println(l)
+		}
+		return
+	}
 	if *dumpRefs {
 		os.Setenv("FRUGALVET_NO_EXPAND", "1")
 		c, err := Load(*repo, *arch)
